@@ -280,6 +280,12 @@ func recoverySystem(t *testing.T, h *H) {
 		cut := h.R.Intn(total + 1) // the client disconnects after having received k events
 		late := i%5 == 4          // reconnects after the window
 		unknownOffset := i%7 == 6
+		// aged: the client presents the offset of the FIRST event it received (as if it had not processed the later ones) and the
+		// events after it were emitted more than a window ago, while the session itself was lost only seconds ago
+		aged := i%6 == 5 && !late && !unknownOffset
+		if aged && cut < 2 {
+			cut = 2
+		}
 		binaryAt := -1
 		if i%4 == 3 {
 			binaryAt = cut + h.R.Intn(total-cut+1)
@@ -349,6 +355,9 @@ func recoverySystem(t *testing.T, h *H) {
 				time.Sleep(50 * time.Millisecond)
 			}
 			time.Sleep(time.Second)
+			if aged {
+				time.Sleep(W) // the events received so far become older than the window; the cleaner (period 1 min) has not run yet
+			}
 			first = p1.received()
 			p1.sock.Close()
 			time.Sleep(time.Second)
@@ -370,7 +379,7 @@ func recoverySystem(t *testing.T, h *H) {
 					var arr []any
 					body := f[strings.Index(f, "["):]
 					if json.Unmarshal([]byte(body), &arr) == nil && len(arr) >= 3 {
-						if s, ok := arr[len(arr)-1].(string); ok {
+						if s, ok := arr[len(arr)-1].(string); ok && !(aged && offset != "") {
 							offset = s
 						}
 					}
@@ -401,7 +410,7 @@ func recoverySystem(t *testing.T, h *H) {
 			r.close()
 			time.Sleep(10 * time.Second)
 		})
-		desc := fmt.Sprintf("history %v; client disconnects after event %d of %d; binary event at %d; reconnect late=%v unknownOffset=%v", kinds, cut, total, binaryAt, late, unknownOffset)
+		desc := fmt.Sprintf("history %v; client disconnects after event %d of %d; binary event at %d; reconnect late=%v unknownOffset=%v agedOffset=%v", kinds, cut, total, binaryAt, late, unknownOffset, aged)
 		h.Eval()
 		h.NonTrivial(desc)
 		h.Dist("system.scenarios")
@@ -441,7 +450,11 @@ func recoverySystem(t *testing.T, h *H) {
 				wantFirst = append(wantFirst, k)
 			}
 		}
-		for k := cut + 1; k <= total; k++ {
+		from := cut + 1
+		if aged && len(gotFirst) > 0 {
+			from = gotFirst[0] + 1 // everything after the first event received
+		}
+		for k := from; k <= total; k++ {
 			if addressed(k) {
 				wantReplay = append(wantReplay, k)
 			}
